@@ -161,6 +161,11 @@ def main():
         if (s1 & s2) - tg:
             shared.append([nm] + sorted((s1 & s2) - tg))
     if req == "wf_products":
+        # products of overlap factors inside the norm factor (two equal factors first occur at order 4)
+        for order in (2, 3, 4):
+            bad = overfull_terms(gs.norm_factor(order))
+            if bad:
+                shared.append([f"norm_factor({order}): index more than twice in {len(bad)} term(s), e.g. {bad[0]}"])
         for tag, g in (("mp", gs), ("mp+singles", A["gs_s"])):
             isr = IntermediateStates(g, "pp")
             for order in (2, 3):
